@@ -185,6 +185,10 @@ Proof.
     apply Z.le_ge. apply Z.div_le_lower_bound; nia.
 Qed.
 
+Lemma img_of_fields : forall p q, img_of p = img_of q ->
+  p_L p = p_L q /\ p_R p = p_R q /\ p_mL p = p_mL q /\ p_mR p = p_mR q.
+Proof. intros p q H. unfold img_of in H. injection H. intros. repeat split; assumption. Qed.
+
 Section MC.
   Variables (m : mmeas) (E : Criteria.env) (G : cfg).
   Hypothesis Hwf : cfg_wf G.
@@ -192,29 +196,34 @@ Section MC.
   Variables (F F' : frame pix) (r c r' c' : Z).
   Hypothesis HF : cone_in F (rad_mc G) r c.
   Hypothesis HF' : cone_in F' (rad_mc G) r' c'.
-  Hypothesis Hag : agree_on F F' (rad_mc G) r c r' c'.
+  (* only the input part of the states (radiometry, mask values) has to agree *)
+  Hypothesis Hag : agree_via img_of F F' (rad_mc G) r c r' c'.
   Let h := MatchingCost.offset (g_w G).
 
   Lemma h0 : 0 <= h.
   Proof. destruct Hwf as (Hw & Ho & _). destruct (MatchingCostP.odd_offset _ Hw Ho). assumption. Qed.
 
   Lemma px_at : forall a b, - h <= a <= h -> - (h + dspan G) <= b <= h + dspan G ->
-    f_at F (r + a) (c + b) = f_at F' (r' + a) (c' + b) /\
+    (p_L (f_at F (r + a) (c + b)) = p_L (f_at F' (r' + a) (c' + b)) /\
+     p_R (f_at F (r + a) (c + b)) = p_R (f_at F' (r' + a) (c' + b)) /\
+     p_mL (f_at F (r + a) (c + b)) = p_mL (f_at F' (r' + a) (c' + b)) /\
+     p_mR (f_at F (r + a) (c + b)) = p_mR (f_at F' (r' + a) (c' + b))) /\
     Cost.in_image (f_nr F) (f_nc F) (r + a) (c + b) = true /\
     Cost.in_image (f_nr F') (f_nc F') (r' + a) (c' + b) = true.
   Proof.
     intros a b Ha Hb. unfold cone_in, rad_mc in HF, HF'. cbn [rho lam mu] in HF, HF'. fold h in HF, HF'.
     split; [|split].
-    - apply Hag. unfold in_cone, rad_mc. cbn [rho lam mu]. fold h. lia.
+    - apply img_of_fields. apply Hag. unfold in_cone, rad_mc. cbn [rho lam mu]. fold h. lia.
     - unfold Cost.in_image. apply band_true4; lia.
     - unfold Cost.in_image. apply band_true4; lia.
   Qed.
 
-  Lemma omask_agree : forall has (g : pix -> Z) a b, - h <= a <= h -> - (h + dspan G) <= b <= h + dspan G ->
+  Lemma omask_agree : forall has (g : pix -> Z) a b,
+    g (f_at F (r + a) (c + b)) = g (f_at F' (r' + a) (c' + b)) ->
     LocalCostP.mask_agree (omask has (fld g F)) (omask has (fld g F')) (r + a) (c + b) (r' + a) (c' + b).
   Proof.
-    intros has g a b Ha Hb. destruct has; cbn [omask LocalCostP.mask_agree]; [|exact I].
-    unfold fld. destruct (px_at a b Ha Hb) as (-> & _). reflexivity.
+    intros has g a b Hg. destruct has; cbn [omask LocalCostP.mask_agree]; [|exact I].
+    unfold fld. exact Hg.
   Qed.
 
   Lemma left_curve_local :
@@ -232,16 +241,16 @@ Section MC.
               LocalCostP.inp_alike_left (inp_left G F) (inp_left G F') r c r' c' a b).
     { intros a b Ha Hb. unfold LocalCostP.inp_alike_left, LocalCostP.px_alike, inp_left. cbn.
       assert (Hb' : - (h + dspan G) <= b <= h + dspan G) by lia.
-      destruct (px_at a b Ha Hb') as (E1 & E2 & E3). rewrite E2, E3. unfold fld. rewrite E1.
-      split; [reflexivity|]. split; [reflexivity|]. apply (omask_agree (g_hasL G) p_mL a b Ha Hb'). }
+      destruct (px_at a b Ha Hb') as ((EL & ER & EmL & EmR) & E2 & E3). rewrite E2, E3.
+      split; [reflexivity|]. split; [unfold fld; exact EL|]. apply (omask_agree (g_hasL G) p_mL a b EmL). }
     assert (HR : forall a b, - h <= a <= h ->
               - h + Cost.dfloor (g_s G) (MatchingCost.disp_scaled (g_s G) (g_dmin G) k) <= b
               <= h + Cost.dceil (g_s G) (MatchingCost.disp_scaled (g_s G) (g_dmin G) k) ->
               LocalCostP.inp_alike_right (inp_left G F) (inp_left G F') r c r' c' a b).
     { intros a b Ha Hb. unfold LocalCostP.inp_alike_right, LocalCostP.px_alike, inp_left. cbn.
       assert (Hb' : - (h + dspan G) <= b <= h + dspan G) by lia.
-      destruct (px_at a b Ha Hb') as (E1 & E2 & E3). rewrite E2, E3. unfold fld. rewrite E1.
-      split; [reflexivity|]. split; [reflexivity|]. apply (omask_agree (g_hasR G) p_mR a b Ha Hb'). }
+      destruct (px_at a b Ha Hb') as ((EL & ER & EmL & EmR) & E2 & E3). rewrite E2, E3.
+      split; [reflexivity|]. split; [unfold fld; exact ER|]. apply (omask_agree (g_hasR G) p_mR a b EmR). }
     destruct m as [| | |zq]; cbn [mc_vol].
     - apply (LocalCostP.sad_model_local (inp_left G F) (inp_left G F') (g_dmin G) (g_dmax G) r c r' c' k);
         try assumption; cbn; try (repeat split; assumption); try lia; repeat split; reflexivity.
@@ -423,6 +432,12 @@ Lemma n_disp_swap : forall G, n_disp (swapc G) = n_disp G.
 Proof. intro G. unfold n_disp, MatchingCost.nb_disp, swapc. cbn [g_s g_dmin g_dmax]. f_equal. ring. Qed.
 Lemma agree_swap : forall F F' R r c r' c', agree_on F F' R r c r' c' -> agree_on (swapf F) (swapf F') R r c r' c'.
 Proof. intros F F' R r c r' c' H a b Hab. unfold swapf. cbn [f_at]. now rewrite (H a b Hab). Qed.
+Lemma agree_via_swap : forall F F' R r c r' c',
+  agree_via img_of F F' R r c r' c' -> agree_via img_of (swapf F) (swapf F') R r c r' c'.
+Proof.
+  intros F F' R r c r' c' H a b Hab. destruct (img_of_fields _ _ (H a b Hab)) as (E1 & E2 & E3 & E4).
+  unfold swapf, swap_pix, img_of. cbn [f_at p_L p_R p_mL p_mR]. congruence.
+Qed.
 
 Lemma all_nan_curve : forall l l', l = l' -> all_nan l = all_nan l'.
 Proof. intros; subst; reflexivity. Qed.
@@ -433,7 +448,7 @@ Section MCflags.
   Variables (F F' : frame pix) (r c r' c' : Z) (b b' : bool).
   Hypothesis HF : cone_in F (rad_mc G) r c.
   Hypothesis HF' : cone_in F' (rad_mc G) r' c'.
-  Hypothesis Hag : agree_on F F' (rad_mc G) r c r' c'.
+  Hypothesis Hag : agree_via img_of F F' (rad_mc G) r c r' c'.
   Hypothesis Hb : b = b'.
 
   Lemma left_flag_local :
@@ -449,25 +464,32 @@ Section MCflags.
     - destruct Hwf as (_ & _ & _ & Hdd). exact Hdd.
     - lia.
     - lia.
-    - intros a d Ha Hd. unfold fld. rewrite (Hag a d); [reflexivity|].
+    - intros a d Ha Hd. unfold fld. apply img_of_fields. apply Hag.
       unfold in_cone, rad_mc. cbn [rho lam mu]. lia.
-    - intros a d Ha Hd. unfold fld. rewrite (Hag a d); [reflexivity|].
+    - intros a d Ha Hd. unfold fld. apply img_of_fields. apply Hag.
       unfold in_cone, rad_mc. cbn [rho lam mu]. lia.
     - exact Hb.
   Qed.
 End MCflags.
 
-Theorem mc_step_local : forall ssd E G, cfg_wf G -> local no_side (mc_step ssd E G) (rad_mc G) (rad_mc G).
+Lemma rad0_wf : rad_wf rad0.
+Proof. unfold rad_wf, rad0. cbn. lia. Qed.
+
+(* the matching-cost step reads the images only (window + disparity span); of the state of the pixel itself it keeps
+   the disparities *)
+Theorem mc_step_local : forall m E G, cfg_wf G -> meas_wf G m ->
+  local2 img_of no_side (mc_step m E G) rad0 (rad_mc G) (rad_mc G).
 Proof.
-  intros ssd E G Hwf F F' r c r' c' HF HF' Hag _.
-  pose proof (agree_centre _ F F' _ r c r' c' (rad_mc_wf G Hwf) Hag) as E0.
+  intros m E G Hwf Hm F F' r c r' c' HF HF' Hag0 Hag _.
+  pose proof (agree_centre _ F F' _ r c r' c' rad0_wf Hag0) as E0.
   assert (Hwf' : cfg_wf (swapc G)).
   { destruct Hwf as (A1 & A2 & A3 & A4). unfold cfg_wf, swapc. cbn [g_w g_s g_dmin g_dmax]. repeat split; try assumption. lia. }
+  assert (Hm' : meas_wf (swapc G) m) by (destruct m; exact Hm).
   assert (HFs : cone_in (swapf F) (rad_mc (swapc G)) r c) by (rewrite rad_mc_swap; exact HF).
   assert (HFs' : cone_in (swapf F') (rad_mc (swapc G)) r' c') by (rewrite rad_mc_swap; exact HF').
-  assert (Hags : agree_on (swapf F) (swapf F') (rad_mc (swapc G)) r c r' c') by (rewrite rad_mc_swap; apply agree_swap; exact Hag).
-  pose proof (left_curve_local ssd G Hwf F F' r c r' c' HF HF' Hag) as CL.
-  pose proof (left_curve_local ssd (swapc G) Hwf' (swapf F) (swapf F') r c r' c' HFs HFs' Hags) as CR.
+  assert (Hags : agree_via img_of (swapf F) (swapf F') (rad_mc (swapc G)) r c r' c') by (rewrite rad_mc_swap; apply agree_via_swap; exact Hag).
+  pose proof (left_curve_local m G Hwf Hm F F' r c r' c' HF HF' Hag) as CL.
+  pose proof (left_curve_local m (swapc G) Hwf' Hm' (swapf F) (swapf F') r c r' c' HFs HFs' Hags) as CR.
   rewrite n_disp_swap in CR.
   change (inp_left (swapc G) (swapf F)) with (inp_right G F) in CR.
   change (inp_left (swapc G) (swapf F')) with (inp_right G F') in CR.
